@@ -9,6 +9,7 @@ import (
 	"strings"
 
 	"github.com/nuetzliches/hookaido/internal/queue"
+	"github.com/nuetzliches/hookaido/internal/verifhook"
 )
 
 type Server struct {
@@ -60,6 +61,7 @@ func (s *Server) ServeHTTP(w http.ResponseWriter, r *http.Request) {
 		return
 	}
 
+	verifhook.Point("ingress.resolved")
 	if s.AllowRequestFor != nil && !s.AllowRequestFor(route) {
 		w.WriteHeader(http.StatusTooManyRequests)
 		s.observe(false, 0)
@@ -82,6 +84,7 @@ func (s *Server) ServeHTTP(w http.ResponseWriter, r *http.Request) {
 		}
 	}
 
+	verifhook.Point("ingress.before_basic")
 	if s.BasicAuthFor != nil {
 		if a := s.BasicAuthFor(route); a != nil {
 			if !a.Verify(r) {
@@ -93,6 +96,7 @@ func (s *Server) ServeHTTP(w http.ResponseWriter, r *http.Request) {
 		}
 	}
 
+	verifhook.Point("ingress.before_limits")
 	maxBody := s.MaxBodyBytes
 	maxHeaders := s.MaxHeaderBytes
 	if s.LimitsFor != nil {
@@ -120,6 +124,7 @@ func (s *Server) ServeHTTP(w http.ResponseWriter, r *http.Request) {
 		return
 	}
 
+	verifhook.Point("ingress.before_forward")
 	var forwardCopied map[string]string
 	if s.ForwardAuthFor != nil {
 		if a := s.ForwardAuthFor(route); a != nil {
@@ -134,6 +139,7 @@ func (s *Server) ServeHTTP(w http.ResponseWriter, r *http.Request) {
 		}
 	}
 
+	verifhook.Point("ingress.before_hmac")
 	if s.HMACAuthFor != nil {
 		if a := s.HMACAuthFor(route); a != nil {
 			if err := a.Verify(r, requestPath, body); err != nil {
@@ -162,6 +168,7 @@ func (s *Server) ServeHTTP(w http.ResponseWriter, r *http.Request) {
 	}
 	env.Headers = headers
 
+	verifhook.Point("ingress.before_targets")
 	targets := []string{s.Target}
 	if s.TargetsFor != nil {
 		if t := s.TargetsFor(route); len(t) > 0 {
@@ -172,6 +179,7 @@ func (s *Server) ServeHTTP(w http.ResponseWriter, r *http.Request) {
 	enqueued := 0
 	for _, target := range targets {
 		env.Target = target
+		verifhook.Point("ingress.fanout")
 		if err := s.Store.Enqueue(env); err != nil {
 			w.WriteHeader(http.StatusServiceUnavailable)
 			s.observe(false, enqueued)
@@ -188,6 +196,7 @@ func (s *Server) ServeHTTP(w http.ResponseWriter, r *http.Request) {
 		enqueued++
 	}
 
+	verifhook.Point("ingress.respond")
 	w.Header().Set("Content-Type", "application/json")
 	w.WriteHeader(http.StatusAccepted)
 	_ = json.NewEncoder(w).Encode(map[string]string{"status": "queued"})
